@@ -175,6 +175,26 @@ func c15RealSeq(raw json.RawMessage) (res any) {
 			}
 		}
 	}
+	// disable, then select ⊆ select (disable_then_select_subset): disabling first can only shrink a selection
+	if len(a.Names) > 0 && len(a.Shuffle) > 0 {
+		ns := a.Shuffle[len(a.Shuffle)-1:]
+		opt := c15Opt(a.Pol)
+		for _, names := range [][]string{a.Names, c15KeySet(cur.Services)[:(len(cur.Services)+1)/2]} {
+			if len(names) == 0 {
+				continue
+			}
+			t2, err2 := cur.WithSelectedServices(names, opt)
+			t1, err1 := cur.WithServicesDisabled(ns...).WithSelectedServices(names, opt)
+			if err1 == nil && err2 == nil {
+				ok := true
+				for k := range t1.Services {
+					_, in := t2.Services[k]
+					ok = ok && in && k != ns[0]
+				}
+				law("WithSelectedServices:after-disable-subset", ok, fmt.Sprintf("disable %v then select %v keeps %v, select alone keeps %v", ns, names, c15KeySet(t1.Services), c15KeySet(t2.Services)))
+			}
+		}
+	}
 	return out
 }
 
